@@ -4,7 +4,8 @@
 without it the demonstration passes. Confirmed ones are kept under /verif/seeded/<id>/."""
 import json, os, shutil, subprocess, sys, glob, re
 
-SRC = "/tmp/mutout"
+SRC = os.environ.get("MUT_SRC", "/tmp/mutout")
+TAG = os.environ.get("MUT_TAG", "")
 SCRATCH = "/tmp/mutscratch"
 TGT = "/tmp/mutscratch_target"
 OUT = "/verif/seeded"
@@ -39,7 +40,7 @@ def main():
     try:
         for d in sorted(glob.glob(SRC + "/C*/m*")):
             prop, m = d.split("/")[-2:]
-            mid = "%s-%s" % (prop, m)
+            mid = "%s-%s%s" % (prop, TAG, m)
             if only and mid not in only and prop not in only:
                 continue
             patch, demo, notes = (os.path.join(d, x) for x in ("patch.diff", "demo.rs", "notes.md"))
@@ -95,7 +96,7 @@ def main():
     finally:
         subprocess.run(["git", "-C", "/repo", "worktree", "remove", "--force", SCRATCH])
         shutil.rmtree(TGT, ignore_errors=True)
-    json.dump(results, open("/tmp/mutout/confirm_results.json", "w"), indent=1)
+    json.dump(results, open(os.path.join(SRC, "confirm_results.json"), "w"), indent=1)
 
 
 if __name__ == "__main__":
